@@ -27,7 +27,7 @@ P = {
              tech='Coq proof over tree algebra + differential correspondence with jax.tree_util', ref="11/C09"),
  "C10": dict(text='Theorem: strip(xform t) = t for every AST; decorator template (from the source) closed for every hash; import position. Tie: translation validation of the real transformer per program (fresh and re-used transformer instances) on the stdlib / site-packages and generated modules: independent strip + ast.dump with attributes, compile(), docstring, __future__ flags; model AST equality evaluated in Coq on small files and generated modules.',
              tech='Coq proof over a generic AST model + per-file translation validation', ref="11/C10"),
- "C11": dict(text='Theorems: should_instrument <=> dotted-component prefix; first import takes the first live hook; loaded modules never change; uninstall removes exactly its hook (all histories); the pytest option = install_import_hook(stripped comma items but the last, last item) incl. the already-imported error; the IPython magic keeps at most one jaxtyping transformer and every cell gets the checker of the latest magic. Tie: histories in fresh interpreters over a generated forest with spy typecheckers; real pytest runs with --jaxtyping-packages; real IPython shells; pairs of runs with bytecode caching on.',
+ "C11": dict(text='Theorems: should_instrument <=> dotted-component prefix, for the rule as REGENERATED FROM THE SOURCE (deep embedding model/PyL.v, translator/tr_pyl_hook.py, C11_should_instrument_source_refines_model); first import takes the first live hook; loaded modules never change; uninstall removes exactly its hook (all histories); the pytest option = install_import_hook(stripped comma items but the last, last item) incl. the already-imported error; the IPython magic keeps at most one jaxtyping transformer and every cell gets the checker of the latest magic. Tie: histories in fresh interpreters over a generated forest with spy typecheckers; real pytest runs with --jaxtyping-packages; real IPython shells; pairs of runs with bytecode caching on.',
              tech='Coq proof over string/meta_path/front-end models + history correspondence in subprocesses', ref="11/C11"),
  "C12": dict(text='Theorems: after any check from a clean store - accept, reject or raise of any class anywhere - flatten mode is off and no leaf position is set; array verdict is a function of (value, annotation, top frame, flags). The try/finally brackets around both transient flags are read from the source AST. Tie: exhaustive single-fault catalogue (26 ops x fault points x Exception/BaseException x checker x in/out of context) + random histories, then 10 probes.',
              tech='Coq proof over fault model + source-shape translator + exhaustive fault enumeration on the implementation', ref="11/C12"),
